@@ -542,11 +542,11 @@ func (w *world) collect() []simkit.Action {
 		}
 	}
 	if w.opsLeft > 0 && w.acks > 0 {
-		if c.TransferW > 0 {
-			acts = append(acts, simkit.Action{Prio: 1, Key: "transfer", Weight: c.TransferW, Do: w.transfer})
+		if c.TransferW > 0 && w.transfers < 6 {
+			acts = append(acts, simkit.Action{Prio: 3, Key: "transfer", Weight: c.TransferW, Do: w.transfer})
 		}
-		if c.CompactW > 0 {
-			acts = append(acts, simkit.Action{Prio: 1, Key: "compact", Weight: c.CompactW, Do: w.compact})
+		if c.CompactW > 0 && w.compacts < 8 {
+			acts = append(acts, simkit.Action{Prio: 3, Key: "compact", Weight: c.CompactW, Do: w.compact})
 		}
 	}
 	// time
@@ -556,13 +556,18 @@ func (w *world) collect() []simkit.Action {
 	} else if nmsgs > 4*c.N*c.Slots {
 		tw = 0
 	}
+	// (with nothing in flight, letting time pass is the benign choice 0: an all-zero tape must still make progress)
+	tp := 2
+	if len(evs) == 0 {
+		tp = 0
+	}
 	if tw > 0 {
-		acts = append(acts, simkit.Action{Prio: 2, Key: "time 01ms", Weight: 4 * tw, Do: func() { time.Sleep(time.Millisecond) }})
-		acts = append(acts, simkit.Action{Prio: 2, Key: "time 10ms", Weight: 4 * tw, Do: func() { time.Sleep(tickInterval) }})
-		acts = append(acts, simkit.Action{Prio: 2, Key: "time 50ms", Weight: 2 * tw, Do: func() { time.Sleep(5 * tickInterval) }})
-		acts = append(acts, simkit.Action{Prio: 2, Key: "time election", Weight: tw, Do: func() { time.Sleep(time.Duration(c.ElectionTick) * tickInterval) }})
+		acts = append(acts, simkit.Action{Prio: tp, Key: "time 10ms", Weight: 4 * tw, Do: func() { time.Sleep(tickInterval) }})
+		acts = append(acts, simkit.Action{Prio: tp, Key: "time 1ms", Weight: 4 * tw, Do: func() { time.Sleep(time.Millisecond) }})
+		acts = append(acts, simkit.Action{Prio: tp, Key: "time 50ms", Weight: 2 * tw, Do: func() { time.Sleep(5 * tickInterval) }})
+		acts = append(acts, simkit.Action{Prio: tp, Key: "time election", Weight: tw, Do: func() { time.Sleep(time.Duration(c.ElectionTick) * tickInterval) }})
 	} else {
-		acts = append(acts, simkit.Action{Prio: 2, Key: "time 01ms", Weight: 1, Do: func() { time.Sleep(time.Millisecond) }})
+		acts = append(acts, simkit.Action{Prio: tp, Key: "time 1ms", Weight: 1, Do: func() { time.Sleep(time.Millisecond) }})
 	}
 	// environment faults
 	if faults {
@@ -734,6 +739,7 @@ func (w *world) propose(slot multiraft.SlotID, final bool) {
 }
 
 func (w *world) transfer() {
+	w.transfers++
 	slot := multiraft.SlotID(1 + w.r.Tape.Intn(w.cfg.Slots))
 	l := w.leaderOf(slot)
 	if l == 0 {
@@ -741,7 +747,7 @@ func (w *world) transfer() {
 	}
 	target := 1 + w.r.Tape.Intn(w.cfg.N)
 	if target == l {
-		return
+		target = target%w.cfg.N + 1
 	}
 	n := w.nodes[l]
 	st, _ := n.rt.Status(slot)
@@ -759,6 +765,7 @@ func (w *world) compact() {
 	if len(up) == 0 {
 		return
 	}
+	w.compacts++
 	x := up[w.r.Tape.Intn(len(up))]
 	slot := multiraft.SlotID(1 + w.r.Tape.Intn(w.cfg.Slots))
 	n := w.nodes[x]
@@ -811,6 +818,7 @@ func (w *world) finalPhase() {
 		evs := w.pendingEvents()
 		if len(evs) > 0 {
 			e := evs[0]
+			r.Logf("f %s", e.key)
 			if e.park != nil {
 				w.sw.Release(e.park, decRelease)
 			} else {
